@@ -9,4 +9,18 @@ CLAIMED = {
         "note": "Trusts rustc's MIR and the documented Read/BufRead contracts; `is_eof` is taken to mean fill_buf().is_empty() (checked under C13).",
     },
 }
-NOT_APPLICABLE = {p: WIP for p in ["C01","C02","C03","C04","C05","C06","C07","C08","C09","C10","C11","C12","C13","C14","C15","C16","C17"]}
+CLAIMED["C12"] = {
+    "engine": "E-CFG/E-TERM",
+    "technique": "static analysis: def-use classification of every Result, provenance of raw read/write counts, dominance of flush/write_all, reachability after failed writes (MIR facts)",
+    "design_ref": "DESIGN.md section 4 / C12",
+    "text": "Decides statically for all ~200 fallible call sites of the crate: no Result<_, io::Error|error::Error> is dropped or swallowed (an explicit table of three accepted idioms, each proven to read an in-memory Cursor<&[u8]>); raw Write::write / Read::read counts are accounted exactly (adapters) or consumed (loops); every successful decompress/finish passes LzBuffer::finish, which write_all's the pending window and flushes; after a failed sink write only error conversion and drops follow. Declined: that the bytes already written are the correct prefix (value-level).",
+    "note": "Trusts rustc's MIR and that Write::write_all loops over short writes (std contract).",
+}
+CLAIMED["C16"] = {
+    "engine": "E-CFG/E-TERM",
+    "technique": "static typestate analysis of the Option latch over the MIR control-flow graph; compile-fail witness (thorough)",
+    "design_ref": "DESIGN.md section 4 / C16",
+    "text": "Decides statically: at every error return of Stream::write the Option latch holding the run state is empty (dataflow with take/refill/None transfer functions), the refill is followed by success only, the None arms of write/finish touch nothing / return Err, and the shared decoding loop tests produced-length against the size with an ordering comparison before any consuming call. 'No sequence of calls panics' is covered by C07.R1 over the same bodies.",
+    "note": "Trusts rustc's MIR; Option::take/replace semantics from std.",
+}
+NOT_APPLICABLE = {p: WIP for p in ["C01","C02","C03","C04","C05","C06","C07","C08","C09","C10","C11","C13","C14","C15","C17"]}
